@@ -116,7 +116,7 @@ def check(ctx, rep):
     _sigils(ctx, rep, ['pcbasic/basic/memory/memory.py:DataSegment.swap_'], 2)
     _sigil_survives(ctx, rep)
     from . import c12, c10, _share
-    _share.share(ctx, rep, c10, ('temporaries.boundary', 'roots.argument'), 'a live string is never treated as a temporary or read after it may have been collected (assigning one variable must not change another)')
+    _share.share(ctx, rep, c10, ('temporaries.boundary', 'roots.argument', 'roots.array-views', 'roots.scalar-views', 'collector.one-copy-per-string'), 'a live string is never treated as a temporary or read after it may have been collected (assigning one variable must not change another)')
     _share.share(ctx, rep, c12, ('index.', 'allocate.checks-what-it-takes'), 'distinct in-bounds subscript tuples get distinct element offsets (mixed-radix numeral)')
     total_checked = 0
     n_fn = 0
